@@ -7,7 +7,7 @@ namespace KinModel.DocValidate
 
 /-- kinds whose `Validate` method must call `validateExtensions` unconditionally -/
 def extKinds : List Kind :=
-  [.root, .components, .info, .contact, .license, .paths, .pathItem, .operation, .parameter, .header, .mediaType,
+  [.root, .components, .info, .contact, .license, .paths, .pathItem, .operation, .parameter, .mediaType,
    .requestBody, .responses, .response, .schema, .example, .link, .callback, .securityScheme, .oauthFlows,
    .oauthFlow, .server, .serverVar, .tag, .externalDocs, .encoding, .discriminator, .xml]
 
@@ -21,12 +21,13 @@ no error ends a method with success, the only error dropped is that of a header 
 key is checked); every component name is checked -/
 def TableOK (T : Table) : Bool :=
   extKinds.all (fun k => alwaysHolds (rowsFor T.checks k "extensions")) &&
-  holdsAs (rowsFor T.checks .schema "default") (fun _ d _ _ => !d) &&
-  holdsAs (rowsFor T.checks .schema "example") (fun e _ _ _ => !e) &&
+  holdsAs (rowsFor T.checks .header "extensions") (fun _ _ _ _ g => !g) &&
+  holdsAs (rowsFor T.checks .schema "default") (fun _ d _ _ _ => !d) &&
+  holdsAs (rowsFor T.checks .schema "example") (fun e _ _ _ _ => !e) &&
   exampleKinds.all (fun k =>
-    holdsAs (rowsFor T.checks k "example") (fun e _ _ _ => !e) &&
-    holdsAs (rowsFor T.checks k "examples") (fun e _ _ x => !e && !(k == .parameter && x)) &&
-    holdsAs (rowsFor T.edges k "examples") (fun e _ s x => !e && s && !(k == .parameter && x))) &&
+    holdsAs (rowsFor T.checks k "example") (fun e _ _ _ g => !e && !(k == .header && g)) &&
+    holdsAs (rowsFor T.checks k "examples") (fun e _ _ x g => !e && !(k == .parameter && x) && !(k == .header && g)) &&
+    holdsAs (rowsFor T.edges k "examples") (fun e _ s x g => !e && s && !(k == .parameter && x) && !(k == .header && g))) &&
   (rowsFor T.edges .exampleRef "value").contains [] &&
   (T.swallows == []) && (T.ignored == [(.encoding, "headers", [])]) &&
   (rowsFor T.checks .encoding "identifier:headers").contains [] &&
@@ -34,12 +35,13 @@ def TableOK (T : Table) : Bool :=
 
 structure TableFacts (T : Table) : Prop where
   ext : ∀ k ∈ extKinds, alwaysHolds (rowsFor T.checks k "extensions") = true
-  sDefault : holdsAs (rowsFor T.checks .schema "default") (fun _ d _ _ => !d) = true
-  sExample : holdsAs (rowsFor T.checks .schema "example") (fun e _ _ _ => !e) = true
+  hdrExt : holdsAs (rowsFor T.checks .header "extensions") (fun _ _ _ _ g => !g) = true
+  sDefault : holdsAs (rowsFor T.checks .schema "default") (fun _ d _ _ _ => !d) = true
+  sExample : holdsAs (rowsFor T.checks .schema "example") (fun e _ _ _ _ => !e) = true
   ex : ∀ k ∈ exampleKinds,
-    holdsAs (rowsFor T.checks k "example") (fun e _ _ _ => !e) = true ∧
-    holdsAs (rowsFor T.checks k "examples") (fun e _ _ x => !e && !(k == .parameter && x)) = true ∧
-    holdsAs (rowsFor T.edges k "examples") (fun e _ s x => !e && s && !(k == .parameter && x)) = true
+    holdsAs (rowsFor T.checks k "example") (fun e _ _ _ g => !e && !(k == .header && g)) = true ∧
+    holdsAs (rowsFor T.checks k "examples") (fun e _ _ x g => !e && !(k == .parameter && x) && !(k == .header && g)) = true ∧
+    holdsAs (rowsFor T.edges k "examples") (fun e _ s x g => !e && s && !(k == .parameter && x) && !(k == .header && g)) = true
   exRef : (rowsFor T.edges .exampleRef "value").contains [] = true
   swallows : T.swallows = []
   ignored : T.ignored = [(.encoding, "headers", [])]
@@ -49,8 +51,8 @@ structure TableFacts (T : Table) : Prop where
 theorem tableFacts (T : Table) (hT : TableOK T = true) : TableFacts T := by
   unfold TableOK at hT
   simp only [Bool.and_eq_true, List.all_eq_true, beq_iff_eq] at hT
-  obtain ⟨⟨⟨⟨⟨⟨⟨⟨h1, h2⟩, h3⟩, h4⟩, h5⟩, h6⟩, h6b⟩, h6c⟩, h7⟩ := hT
-  exact ⟨h1, h2, h3, fun k hk => ⟨(h4 k hk).1.1, (h4 k hk).1.2, (h4 k hk).2⟩, h5, h6, h6b, h6c, h7⟩
+  obtain ⟨⟨⟨⟨⟨⟨⟨⟨⟨h1, h1b⟩, h2⟩, h3⟩, h4⟩, h5⟩, h6⟩, h6b⟩, h6c⟩, h7⟩ := hT
+  exact ⟨h1, h1b, h2, h3, fun k hk => ⟨(h4 k hk).1.1, (h4 k hk).1.2, (h4 k hk).2⟩, h5, h6, h6b, h6c, h7⟩
 
 theorem anyHolds_of_nil (o : Opts) (a : Attrs) (gss : List (List String)) (h : gss.contains [] = true) :
     anyHolds o a gss = true := by
@@ -58,28 +60,30 @@ theorem anyHolds_of_nil (o : Opts) (a : Attrs) (gss : List (List String)) (h : g
   rw [List.any_eq_true]
   exact ⟨[], by simpa using h, by simp [guardsHold]⟩
 
-theorem mkA_schema (s x : Bool) : (mkA s x).flag "hasSchema" = s := by cases s <;> cases x <;> decide
-theorem mkA_example (s x : Bool) : (mkA s x).flag "hasExample" = x := by cases s <;> cases x <;> decide
+theorem mkA_schema (s x g : Bool) : (mkA s x g).flag "hasSchema" = s := by cases s <;> cases x <;> cases g <;> decide
+theorem mkA_example (s x g : Bool) : (mkA s x g).flag "hasExample" = x := by cases s <;> cases x <;> cases g <;> decide
+theorem mkA_again (s x g : Bool) : (mkA s x g).flag "again" = g := by cases s <;> cases x <;> cases g <;> decide
 
 theorem litHolds_four (o : Opts) (a : Attrs) (l : String) :
-    litHolds o a l = litHolds (mkO o.exDisabled o.defDisabled) (mkA (a.flag "hasSchema") (a.flag "hasExample")) l := by
-  unfold litHolds; split <;> simp [mkO, mkA_schema, mkA_example]
+    litHolds o a l = litHolds (mkO o.exDisabled o.defDisabled) (mkA (a.flag "hasSchema") (a.flag "hasExample") (a.flag "again")) l := by
+  unfold litHolds; split <;> simp [mkO, mkA_schema, mkA_example, mkA_again]
 
 theorem anyHolds_four (o : Opts) (a : Attrs) (gss : List (List String)) :
-    anyHolds o a gss = anyHolds (mkO o.exDisabled o.defDisabled) (mkA (a.flag "hasSchema") (a.flag "hasExample")) gss := by
-  have hl : litHolds o a = litHolds (mkO o.exDisabled o.defDisabled) (mkA (a.flag "hasSchema") (a.flag "hasExample")) :=
+    anyHolds o a gss = anyHolds (mkO o.exDisabled o.defDisabled) (mkA (a.flag "hasSchema") (a.flag "hasExample") (a.flag "again")) gss := by
+  have hl : litHolds o a = litHolds (mkO o.exDisabled o.defDisabled) (mkA (a.flag "hasSchema") (a.flag "hasExample") (a.flag "again")) :=
     funext (litHolds_four o a)
   unfold anyHolds guardsHold
   rw [hl]
 
-/-- what `holdsAs` decides over the sixteen valuations holds for every option set and every node -/
-theorem anyHolds_as (o : Opts) (a : Attrs) (gss : List (List String)) (f : Bool → Bool → Bool → Bool → Bool)
+/-- what `holdsAs` decides over the thirty-two valuations holds for every option set and every node -/
+theorem anyHolds_as (o : Opts) (a : Attrs) (gss : List (List String)) (f : Bool → Bool → Bool → Bool → Bool → Bool)
     (h : holdsAs gss f = true) :
-    anyHolds o a gss = f o.exDisabled o.defDisabled (a.flag "hasSchema") (a.flag "hasExample") := by
+    anyHolds o a gss = f o.exDisabled o.defDisabled (a.flag "hasSchema") (a.flag "hasExample") (a.flag "again") := by
   rw [anyHolds_four]
   unfold holdsAs at h
   simp only [List.all_cons, List.all_nil, Bool.and_true, Bool.and_eq_true, beq_iff_eq] at h
-  cases o.exDisabled <;> cases o.defDisabled <;> cases a.flag "hasSchema" <;> cases a.flag "hasExample" <;> simp_all
+  cases o.exDisabled <;> cases o.defDisabled <;> cases a.flag "hasSchema" <;> cases a.flag "hasExample" <;>
+    cases a.flag "again" <;> simp_all
 
 theorem anyHolds_of_always (o : Opts) (a : Attrs) (gss : List (List String)) (h : alwaysHolds gss = true) :
     anyHolds o a gss = true := anyHolds_as o a gss _ h
